@@ -301,7 +301,10 @@ class Facts:
         self.atom[unparse(node)] = truth
 
     def ev(self, node):
-        return self._ev(self._c(node))
+        node = self._c(node)
+        if any(isinstance(x, ast.IfExp) for x in ast.walk(node)):
+            node = _ReduceIfExp(self).visit(copy.deepcopy(node))
+        return self._ev(node)
 
     def _ev(self, node):
         if isinstance(node, ast.UnaryOp) and isinstance(node.op, ast.Not):
@@ -356,6 +359,15 @@ class Facts:
         if isinstance(node, ast.Call) and unparse(node.func) == 'isinstance' and node.args and isinstance(node.args[0], ast.Name) \
                 and node.args[0].id in self.own:
             return True
+        if isinstance(node, ast.Call) and unparse(node.func) == 'isinstance' and len(node.args) == 2 and isinstance(node.args[0], ast.Call) \
+                and isinstance(node.args[0].func, ast.Name) and node.args[0].func.id in self.prog.classes:
+            # isinstance(C(..), T): a new object of a program class, decided by the MRO of C (for the T that are program classes / builtins)
+            mro = set(self.prog.mro(node.args[0].func.id))
+            tn = [unparse(t) for t in (node.args[1].elts if isinstance(node.args[1], ast.Tuple) else [node.args[1]])]
+            if any(t in mro for t in tn):
+                return True
+            if all(t in self.prog.classes or t in ('type', 'str', 'int', 'float', 'bool', 'dict', 'list', 'tuple', 'set') for t in tn):
+                return False
         ip = self._isinstance_parts(node)
         if ip is not None:
             # an instance of one of (A, B) is an instance of one of any larger tuple; not an instance of any of a tuple all of whose members are excluded
@@ -364,6 +376,85 @@ class Facts:
             if ip[1] <= self.tneg.get(ip[0], set()):
                 return False
         return None
+
+
+class _ReduceIfExp(ast.NodeTransformer):
+    """`(a if t else b)` with t decided by the facts is a / b"""
+
+    def __init__(self, facts):
+        self.facts = facts
+
+    def visit_IfExp(self, n):
+        n.test = self.visit(n.test)
+        t = self.facts._ev(n.test)
+        if t is True:
+            return self.visit(n.body)
+        if t is False:
+            return self.visit(n.orelse)
+        n.body, n.orelse = self.visit(n.body), self.visit(n.orelse)
+        return n
+
+
+def resolve_locals(fn, target_stmt):
+    """{local name: expression over the values the parameters had at entry} for the locals bound by the statements of fn's body that precede the
+    top-level statement containing `target_stmt`: plain assignments `t = e` and conditional re-bindings `if c: t = e` (no else) become
+    `e` / `(e if c else <previous t>)`; e and c read names only (no fields, no subscripts), constructor calls of those allowed.  A name
+    bound in any other way is left out (conditions on it stay as they are)."""
+    env, killed = {}, set()
+
+    def pure(e):
+        for x in ast.walk(e):
+            if isinstance(x, (ast.Attribute, ast.Subscript, ast.NamedExpr, ast.Await, ast.Yield, ast.YieldFrom, ast.Lambda, ast.ListComp, ast.SetComp,
+                              ast.DictComp, ast.GeneratorExp, ast.Starred)):
+                return False
+            if isinstance(x, ast.Call) and not isinstance(x.func, ast.Name):
+                return False
+        return True
+
+    def sub(e):
+        return Subst({k: v for k, v in env.items() if k not in killed}).visit(copy.deepcopy(e))
+
+    def kill(st):
+        for x in ast.walk(st):
+            if isinstance(x, ast.Name) and isinstance(x.ctx, (ast.Store, ast.Del)):
+                killed.add(x.id)
+                env.pop(x.id, None)
+
+    for st in fn.body:
+        if any(x is target_stmt for x in ast.walk(st)):
+            break
+        if isinstance(st, ast.AnnAssign) and st.value is not None and isinstance(st.target, ast.Name):
+            tgt, val = st.target, st.value
+        elif isinstance(st, ast.Assign) and len(st.targets) == 1 and isinstance(st.targets[0], ast.Name):
+            tgt, val = st.targets[0], st.value
+        else:
+            tgt = None
+        if tgt is not None:
+            if pure(val) and not any(isinstance(x, ast.Name) and x.id in killed for x in ast.walk(val)):
+                env[tgt.id] = sub(val)
+                killed.discard(tgt.id)
+            else:
+                kill(st)
+            continue
+        if isinstance(st, ast.If) and not st.orelse and st.body and all(
+                isinstance(b, ast.Assign) and len(b.targets) == 1 and isinstance(b.targets[0], ast.Name) for b in st.body):
+            if pure(st.test) and all(pure(b.value) for b in st.body) and not any(
+                    isinstance(x, ast.Name) and x.id in killed for b in [st.test] + [b.value for b in st.body] for x in ast.walk(b)):
+                test = sub(st.test)
+                inner = dict(env)
+                for b in st.body:
+                    t_ = b.targets[0].id
+                    val = Subst({k: v for k, v in inner.items() if k not in killed}).visit(copy.deepcopy(b.value))
+                    inner[t_] = val
+                for b in st.body:
+                    t_ = b.targets[0].id
+                    prev = env.get(t_, ast.Name(id=t_, ctx=ast.Load()))
+                    env[t_] = ast.IfExp(test=copy.deepcopy(test), body=inner[t_], orelse=copy.deepcopy(prev))
+            else:
+                kill(st)
+            continue
+        kill(st)
+    return {k: v for k, v in env.items() if k not in killed}
 
 
 class Subst(ast.NodeTransformer):
@@ -554,6 +645,65 @@ class RBE:
                             f.learn(cds[-1][0], not cds[-1][1])
             finally:
                 self._in_post_facts = False
+        # a dominating `if C: B` without else whose condition is known to hold HERE, while nothing C reads is bound between the `if` and this node
+        # except inside B: had B been skipped, C would still be false here -- so B ran, and what holds at the end of B (about names not bound
+        # afterwards) holds here.  `v = t` as the last statement of B hands the facts about t on to v.
+        if node.ast is not None and not getattr(self, '_in_body_facts', False):
+            self._in_body_facts = True
+            try:
+                dom_ids = g.dominators()[node.id]
+                for st in ast.walk(fn):
+                    if not (isinstance(st, ast.If) and not st.orelse and st.body and not any(x is node.ast for x in ast.walk(st))):
+                        continue
+                    cn = [g.nodes[i] for i in dom_ids if g.nodes[i].ast is st.test]
+                    if not cn or any(isinstance(x, (ast.Return, ast.Break, ast.Continue)) for b in st.body for x in ast.walk(b)):
+                        continue
+                    cnames = {x.id for x in ast.walk(st.test) if isinstance(x, ast.Name)}
+                    if any(isinstance(x, (ast.Attribute, ast.Subscript, ast.Call)) and not (isinstance(x, ast.Call) and isinstance(x.func, ast.Name))
+                           for x in ast.walk(st.test)):
+                        continue
+                    body_nodes = {id(x) for b in st.body for x in ast.walk(b)}
+                    stored_after = set()
+                    for nid in g.reachable_from(cn[0], avoid=(node,)):
+                        bn = g.nodes[nid]
+                        if bn.ast is None or bn is node or id(bn.ast) in body_nodes or not g.reaches(bn, node):
+                            continue
+                        for x in walk_shallow(bn.ast):
+                            if isinstance(x, ast.Name) and isinstance(x.ctx, (ast.Store, ast.Del)):
+                                stored_after.add(x.id)
+                    if cnames & stored_after or f.ev(st.test) is not True:
+                        continue
+                    last = st.body[-1]
+                    ln = g.node_for(last)
+                    if ln is None:
+                        continue
+                    fb = self.facts_at(cls, def_cls, fn, g, ln)
+                    ren = {}
+                    dropped = set()
+                    if isinstance(last, ast.Assign) and len(last.targets) == 1 and isinstance(last.targets[0], ast.Name):
+                        dropped.add(last.targets[0].id)
+                        if isinstance(last.value, ast.Name):
+                            ren = {last.value.id: ast.Name(id=last.targets[0].id, ctx=ast.Load())}
+                    elif not isinstance(last, (ast.If, ast.Pass, ast.Expr)):
+                        continue
+                    for (cd, tr) in list(fb.learned):
+                        names = {x.id for x in ast.walk(cd) if isinstance(x, ast.Name)}
+                        if any(isinstance(x, (ast.Attribute, ast.Subscript)) for x in ast.walk(cd)):
+                            continue                     # facts about fields are not carried over
+                        if ren:
+                            if not (names & set(ren)):
+                                continue
+                            cd2 = Subst(ren).visit(copy.deepcopy(cd))
+                            names2 = {x.id for x in ast.walk(cd2) if isinstance(x, ast.Name)}
+                            if (names2 - {last.targets[0].id}) & (dropped | stored_after):
+                                continue
+                            if last.targets[0].id in stored_after:
+                                continue
+                            f.learn(cd2, tr)
+                        elif not (names & (dropped | stored_after)):
+                            f.learn(cd, tr)
+            finally:
+                self._in_body_facts = False
         # elements of a local sequence that was checked as a whole: `for x in S: if C(x): raise` / `if any(C(x) for x in S): raise` /
         # `if not all(P(x) for x in S): raise` earlier in an enclosing block, S bound once and never mutated in this function; inside a later
         # `for y in S:` the checks hold of y.  `S = [float(v) for v in S0]` makes every element a float.
@@ -600,6 +750,10 @@ class RBE:
                 a = n.ast
                 if isinstance(a, ast.Raise):
                     conds = [(c.ast, br) for (c, br) in g.guard_branches(n)]
+                    loc = resolve_locals(fn, a)
+                    if loc and any(isinstance(x, ast.Name) and x.id in loc for (cd, _b) in conds if cd is not None for x in ast.walk(cd)):
+                        # a guard on a local that is a copy (or a conditional re-binding) of a parameter is a guard on the parameter
+                        conds = [(ast.fix_missing_locations(Subst(loc).visit(copy.deepcopy(cd))) if cd is not None else cd, b) for (cd, b) in conds]
                     rs = RaiseSite(short(a, 70), f'{def_cls}.{fn.name}', a.lineno, file, conds, [f'{def_cls}.{fn.name}'], a)
                     if id(a) not in raise_seen:
                         raise_seen.add(id(a))
